@@ -97,3 +97,8 @@ Example C04_example :
                 [LW 0; LW 1; LW 1; LW 0; LW 0; LW 1; LW 0; LW 0; LW 1; LW 0; LMain; LRes; LRes; LMain; LMain] in
   exists e, fmn s = FRaised e /\ In e (flog s).
 Proof. vm_compute. eexists. split; [reflexivity|]. auto. Qed.
+
+(* source fact (worker._run_init_func / _run_exit_func): a raising worker_init is reported under the INIT slot and a raising worker_exit under the EXIT slot on both branches (with and without a timeout configured): the results handler fails the pending jobs only for the INIT slot *)
+Theorem C04_init_exit_phases_bracketed : init_exit_phases_bracketed = true.
+Proof. exact phases_spec. Qed.
+Print Assumptions C04_init_exit_phases_bracketed.
